@@ -58,6 +58,7 @@ func init() {
 		var obs []core.Ob
 		obs = append(obs, c.RegionIndex()...)
 		obs = append(obs, c.RCONFrame()...)
+		obs = append(obs, c.VarLen()...)
 		return obs
 	}}
 }
